@@ -1098,3 +1098,11 @@ package k8s
 //@   loop 1:
 //@     invariant ok: banpEgOK(banp)
 //@     invariant none: canonQuery(protocol, port) ==> (forall j int :: {banp.Spec.Egress[j]} (0 <= j && j <= rangeindex) ==> !banpEgCap(banp, j, dst, canonProto(protocol), atoiVal(port)))
+
+// the uniqueness key of a label selector (A-selkey, TRUSTED): a function of the selector object - selectors are never
+// mutated after decoding. What the function computes from the selector's requirements is not verified here (SelectorsFullMatch
+// carries the requirement-level contract).
+//@ ufun selKey(ls *metav1.LabelSelector) string
+//@ func UniqueKeyFromLabelsSelector
+//@   trusted
+//@   ensures key: res1 == nil ==> res0 == selKey(ls)
